@@ -64,7 +64,9 @@ func (f *Random) Call(s *slip.Scope, args slip.List, depth int) (result slip.Obj
 	}
 	if rs == nil {
 		obj := s.Get(randomStateStr)
-		rs, _ = obj.(*RandomState)
+		if rs, _ = obj.(*RandomState); rs == nil {
+			slip.TypePanic(s, depth, "*random-state*", obj, "random-state")
+		}
 	}
 	switch limit := args[0].(type) {
 	case slip.Fixnum:
